@@ -504,6 +504,9 @@ func genProgram(r *hxlib.Rng, class string, idx int) *prog {
 	for i := 0; i < ns; i++ {
 		g.stmt()
 	}
+	if class == "early" {
+		return g.finishEarly(types.String(), da, db, ia, ib)
+	}
 	// results: 1..4 values, biased to rewired values and late definitions
 	nres := 1 + r.Intn(4)
 	var rets, rtypes []string
@@ -605,4 +608,110 @@ func main(a, b %s) (%s, %s, %s) {
 `, t, t, t, t, op)
 	return &prog{Src: src, GIn: []string{hexIn()}, EIn: []string{bIn}, Class: "big",
 		Feat: map[string]bool{"big_instruction": true}}
+}
+
+// reassignIn emits, inside a nested block, statements that only assign to
+// existing mutable scalars (no declarations: they would be block-scoped).
+func (g *gen) reassignIn(ind string, n int, must []gvar) {
+	muts := g.varsOf(func(v gvar) bool { return v.t.scalar() && v.mut })
+	for i := 0; i < n; i++ {
+		var v gvar
+		if i < len(must) {
+			v = must[i]
+		} else if len(muts) > 0 {
+			v = muts[g.r.Intn(len(muts))]
+		} else {
+			return
+		}
+		e, _ := g.scalar(v.t, 1)
+		if g.r.Intn(3) == 0 {
+			e = fmt.Sprintf("%s(%s)", v.t, g.lit(v.t)) // plain constant: no read
+		}
+		fmt.Fprintf(&g.sb, "%s%s = %s\n", ind, v.name, e)
+	}
+}
+
+// finishEarly: class "early" -- results are mutable scalars R; some of them get
+// a pending phi (`if c { r = e }`), then an if / else whose else branch
+// touches them and RETURNS, while the then branch falls through to a
+// continuation that reads them.  Block serialisation puts the continuation
+// before the else block; a phi resolved first in the else block is then used
+// before its definition in prog.Steps.
+func (g *gen) finishEarly(types, da, db string, ia, ib []string) *prog {
+	r := g.r
+	// make sure there are mutable scalars
+	for len(g.varsOf(func(v gvar) bool { return v.t.scalar() && v.mut })) < 2 {
+		t := g.randScalarType()
+		e, _ := g.scalar(t, 1)
+		n := g.fresh()
+		g.line("%s := %s", n, e)
+		g.vars = append(g.vars, gvar{name: n, t: t, mut: true})
+	}
+	muts := g.varsOf(func(v gvar) bool { return v.t.scalar() && v.mut })
+	nres := 1 + r.Intn(minInt(3, len(muts)))
+	var res []gvar
+	for _, i := range permN(r, len(muts))[:nres] {
+		res = append(res, muts[i])
+	}
+	var rtypes, rnames []string
+	for _, v := range res {
+		rtypes = append(rtypes, v.t.String())
+		rnames = append(rnames, v.name)
+	}
+	levels := 1 + r.Intn(2)
+	for l := 0; l < levels; l++ {
+		// pending phis
+		for _, v := range res {
+			if r.Intn(3) > 0 {
+				e, _ := g.scalar(v.t, 1)
+				if r.Bool() {
+					g.line("if %s {\n\t\t%s = %s\n\t}", g.cond(), v.name, e)
+				} else {
+					e2, _ := g.scalar(v.t, 1)
+					g.line("if %s {\n\t\t%s = %s\n\t} else {\n\t\t%s = %s\n\t}", g.cond(), v.name, e, v.name, e2)
+				}
+			}
+		}
+		// if / else with early return in one branch
+		retFirst := r.Intn(4) == 0
+		g.line("if %s {", g.cond())
+		if retFirst {
+			g.reassignIn("\t\t", 1+r.Intn(3), res)
+			g.line("\treturn %s", strings.Join(rnames, ", "))
+			g.line("} else {")
+			g.reassignIn("\t\t", r.Intn(3), nil)
+			g.line("}")
+		} else {
+			g.reassignIn("\t\t", r.Intn(3), nil)
+			g.line("} else {")
+			g.reassignIn("\t\t", 1+r.Intn(3), res)
+			g.line("\treturn %s", strings.Join(rnames, ", "))
+			g.line("}")
+		}
+		// continuation reads the results
+		for i := 0; i < 1+r.Intn(3); i++ {
+			v := res[r.Intn(len(res))]
+			e, _ := g.scalar(v.t, 2)
+			g.line("%s = (%s ^ %s)", v.name, v.name, e)
+		}
+	}
+	g.feat["early_return"] = true
+	if len(res) > 1 {
+		g.feat["multi_output"] = true
+	}
+	src := fmt.Sprintf("package main\n%sfunc main(a %s, b %s) (%s) {\n%s\treturn %s\n}\n",
+		types, da, db, strings.Join(rtypes, ", "), g.sb.String(), strings.Join(rnames, ", "))
+	return &prog{Src: src, GIn: ia, EIn: ib, Class: "early", Feat: g.feat}
+}
+
+func permN(r *hxlib.Rng, n int) []int {
+	p := make([]int, n)
+	for i := range p {
+		p[i] = i
+	}
+	for i := n - 1; i > 0; i-- {
+		j := r.Intn(i + 1)
+		p[i], p[j] = p[j], p[i]
+	}
+	return p
 }
